@@ -125,6 +125,8 @@ type PipelineJob struct {
 	sched      *taskctl.Scheduler
 	taskRunner runner.Runner
 	startTimer *time.Timer
+	// cancelRequested is set if the running job was told to cancel (the scheduler does not always report that)
+	cancelRequested bool
 }
 
 func (j *PipelineJob) isRunning() bool {
@@ -499,6 +501,14 @@ func (r *PipelineRunner) JobCompleted(id uuid.UUID, err error) {
 	now := time.Now()
 	job.End = &now
 	job.LastError = err
+
+	// A cancel that arrived while no task was running (between two tasks), or that only stopped tasks with
+	// allow_failure, yields no error from the scheduler. The remaining tasks were never started, so the job must
+	// not be reported as successfully completed.
+	if err == nil && job.cancelRequested {
+		err = context.Canceled
+		job.LastError = err
+	}
 
 	// Set canceled flag on the job if a task was canceled through the context
 	if errors.Is(err, context.Canceled) {
@@ -1008,6 +1018,7 @@ func (r *PipelineRunner) cancelJobInternal(id uuid.UUID) error {
 	}
 
 	cancelFunc := job.sched.Cancel
+	job.cancelRequested = true
 
 	r.wg.Add(1)
 	go (func() {
